@@ -13,25 +13,28 @@ STACK = ("c04", "r1", "C04.R1", "the population stack is a plain stack")
 ORDER = ("c09", "r3_total_order", "C09.R3", "`better` is the numeric order of objective values")
 REQUIRE = ("c03", "r8_require", "C03.R8", "a requirement is met by state of any enclosing scope")
 
+SUGAR = ("c01", "r6_named_accessors", "C01.R6", "State's named accessors (populations_mut, random_mut, iterations, best_individual, ...) are the registry accessors of the named type")
 EQUALITY = ("c07", "r7_individual_equality", "C07.R7", "two individuals are equal iff solution and objective are equal")
 
 DEPS = {
-    "C02": [REGISTRY],
-    "C03": [REGISTRY, SCOPES],
-    "C06": [REGISTRY, STACK],
-    "C07": [REGISTRY, STACK],
-    "C10": [REGISTRY],
-    "C11": [STACK],
-    "C12": [STACK],
-    "C08": [REGISTRY],
-    "C13": [STACK, REGISTRY],
-    "C14": [STACK],
-    "C15": [REGISTRY],
-    "C16": [REGISTRY, STACK, ORDER, REQUIRE, EQUALITY],
-    "C17": [STACK, REGISTRY],
-    "C18": [STACK, ORDER, REGISTRY],
-    "C19": [STACK, ORDER, REGISTRY],
-    "C20": [STACK, REGISTRY, EQUALITY],
+    "C02": [REGISTRY, SUGAR],
+    "C03": [REGISTRY, SCOPES, SUGAR],
+    "C04": [SUGAR],
+    "C05": [SUGAR],
+    "C06": [REGISTRY, STACK, SUGAR],
+    "C07": [REGISTRY, STACK, SUGAR],
+    "C08": [REGISTRY, SUGAR],
+    "C10": [REGISTRY, SUGAR],
+    "C11": [STACK, SUGAR],
+    "C12": [STACK, SUGAR],
+    "C13": [STACK, REGISTRY, SUGAR],
+    "C14": [STACK, SUGAR],
+    "C15": [REGISTRY, SUGAR],
+    "C16": [REGISTRY, STACK, ORDER, REQUIRE, EQUALITY, SUGAR],
+    "C17": [STACK, REGISTRY, SUGAR],
+    "C18": [STACK, ORDER, REGISTRY, SUGAR],
+    "C19": [STACK, ORDER, REGISTRY, SUGAR],
+    "C20": [STACK, REGISTRY, EQUALITY, SUGAR],
 }
 
 
